@@ -196,3 +196,182 @@ Proof.
 Qed.
 
 End Versions.
+
+(* ------------------------------------------------------------------ masters that are uniform over the versions *)
+From AV Require Import Tree.MergePureProofsKeys.
+From AV Require Tree.LoadRefineGood.
+
+Section Masters.
+Variable T : tables.
+Variables LATEST defref : N.
+Variable vs : list N.
+Variable v0 : N.
+Variable NM : list N.
+
+Fixpoint MU (t : mtree) {struct t} : Prop :=
+  match t with
+  | MNode name ty attrs content comment files =>
+    TyUni T vs v0 NM ty /\ In name NM /\
+    (fix all (l : list (mtree + Parser.cdata)) : Prop :=
+       match l with [] => True | inl c :: r => MU c /\ all r | inr _ :: r => all r end) content
+  end.
+Lemma MU_unfold name ty attrs content comment files :
+  MU (MNode name ty attrs content comment files) <->
+  (TyUni T vs v0 NM ty /\ In name NM /\ forall c, In c (kids content) -> MU c).
+Proof.
+  cbn [MU].
+  assert (E : forall l, (fix all (l : list (mtree + Parser.cdata)) : Prop :=
+                           match l with [] => True | inl c :: r => MU c /\ all r | inr _ :: r => all r end) l <->
+                        (forall c, In c (kids l) -> MU c)).
+  { induction l as [|[c|d] r IH]; cbn [kids flat_map app].
+    - split; [intros _ c []|auto].
+    - rewrite IH. split.
+      + intros [H1 H2] c0 [<-|H0]; auto.
+      + intros H. split; [apply H; left; reflexivity|]. intros c0 H0. apply H. right. exact H0.
+    - exact IH. }
+  rewrite E. tauto.
+Qed.
+
+Lemma HUs_forall l : (forall c, In (inl c) l -> HU T vs v0 NM c) -> HUs T vs v0 NM l.
+Proof.
+  induction l as [|[c|d] r IH]; intros H; cbn [HUs]; [exact I| |].
+  - split; [apply H; left; reflexivity|apply IH; intros c0 H0; apply H; right; exact H0].
+  - apply IH. intros c0 H0. apply H. right. exact H0.
+Qed.
+
+Lemma pview_HU n : forall t, (depth t <= n)%nat -> MU t -> forall g, HU T vs v0 NM (pview g t).
+Proof.
+  induction n as [|n IH]; intros [name ty attrs content comment files] Hd HM g; rewrite depth_unfold in Hd; [lia|].
+  apply MU_unfold in HM as (HT & Hn & Hk). rewrite pview_unfold. apply HU_unfold. split; [exact HT|]. split; [exact Hn|].
+  apply HUs_forall. intros h Hh. destruct (pview_items_in_inv g content h Hh) as (c & Hc & _ & ->).
+  apply IH; [|apply Hk; exact Hc]. apply kids_in in Hc. apply depth_items_in in Hc. lia.
+Qed.
+
+Lemma Rep_HU n : forall t, (depth t <= n)%nat -> MU t -> forall F inh h, Rep T F inh t h -> HU T vs v0 NM h.
+Proof.
+  induction n as [|n IH]; intros [name ty attrs content comment files] Hd HM F inh h HR; rewrite depth_unfold in Hd; [lia|].
+  apply MU_unfold in HM as (HT & Hn & Hk). apply Rep_unfold in HR as (_ & hc & hc' & -> & HI & HP & _).
+  apply HU_unfold. split; [exact HT|]. split; [exact Hn|].
+  apply HUs_forall. intros h0 Hh. assert (Hh' : In (inl h0) hc') by (eapply Permutation_in; eauto).
+  destruct (RepItems_in_inv _ F _ content hc' h0 HI Hh') as (c & Hc & HRc).
+  eapply IH; [|apply Hk; exact Hc|exact HRc]. apply kids_in in Hc. apply depth_items_in in Hc. lia.
+Qed.
+
+(* ---- the merge step and the cleanliness for files of different versions of vs ---- *)
+Theorem pmerge_rep_versions (fver : N -> option N) : VOK LATEST vs fver -> In v0 vs ->
+  forall fuel t, Good T defref v0 t -> MU t -> forall F g inh a,
+  (depth t < fuel \/ hdepth a < fuel)%nat ->
+  ~ In g F -> In g (mfiles t) -> Rep T F inh t a ->
+  exists a', pmerge T LATEST defref fver fuel a (inF F (mfiles t)) (pview g t) g = Val (OK a') /\
+             h_local a' = h_local a /\
+             forall inh', Rep T (g :: F) inh' t (h_set_local a' (norm inh' (inF (g :: F) (mfiles t)))).
+Proof.
+  intros HV Hv0 fuel t HG HM F g inh a Hd HgF Hg HR.
+  assert (HV0 : VOK LATEST vs (fun _ => Some v0)) by (split; [intros f v [= <-]; exact Hv0|apply HV]).
+  rewrite (pmerge_versions T LATEST defref vs v0 NM fver (fun _ => Some v0) HV HV0).
+  - apply (pmerge_rep_gen T LATEST defref v0 (fun _ => Some v0) fuel t HG F g inh a Hd); auto.
+  - eapply (Rep_HU (depth t)); eauto.
+  - apply (pview_HU (depth t)); auto.
+Qed.
+
+Theorem rep_clean_versions (fver : N -> option N) : VOK LATEST vs fver -> In v0 vs ->
+  forall fuel t, Good T defref v0 t -> MU t -> forall F g inh a,
+  ~ In g F -> In g (mfiles t) -> Rep T F inh t a ->
+  Clean T LATEST defref fver fuel a (inF F (mfiles t)) (pview g t) g.
+Proof.
+  intros HV Hv0 fuel t HG HM F g inh a HgF Hg HR.
+  assert (HV0 : VOK LATEST vs (fun _ => Some v0)) by (split; [intros f v [= <-]; exact Hv0|apply HV]).
+  apply (Clean_versions T LATEST defref vs v0 NM (fun _ => Some v0) fver HV0 HV).
+  - eapply (Rep_HU (depth t)); eauto.
+  - apply (pview_HU (depth t)); auto.
+  - apply (LoadRefineGood.rep_clean T LATEST defref v0 (fun _ => Some v0) fuel t HG F g inh a); auto.
+Qed.
+
+End Masters.
+
+(* ------------------------------------------------------------------ the side condition as a boolean on the master *)
+Definition res_eqb {A} (e : A -> A -> bool) (x y : res A) : bool :=
+  match x, y with
+  | Val a, Val b => e a b
+  | Pan s, Pan s' => String.eqb s s'
+  | Fuel, Fuel => true
+  | _, _ => false
+  end.
+Lemma res_eqb_sound {A} (e : A -> A -> bool) x y : (forall a b, e a b = true -> a = b) -> res_eqb e x y = true -> x = y.
+Proof.
+  intros He. destruct x, y; cbn [res_eqb]; try discriminate; auto.
+  - intros H. f_equal. apply He. exact H.
+  - intros H. f_equal. apply String.eqb_eq. exact H.
+Qed.
+Fixpoint nlist_eqb (a b : list N) : bool :=
+  match a, b with [], [] => true | x :: a', y :: b' => (x =? y) && nlist_eqb a' b' | _, _ => false end.
+Lemma nlist_eqb_sound a : forall b, nlist_eqb a b = true -> a = b.
+Proof.
+  induction a as [|x a IH]; intros [|y b]; cbn [nlist_eqb]; try discriminate; auto.
+  intros H. apply andb_true_iff in H as [H1 H2]. apply N.eqb_eq in H1. f_equal; auto.
+Qed.
+Definition fse_eqb (x y : option ((N * N) * list N)) : bool :=
+  match x, y with
+  | Some ((a, b), l), Some ((a', b'), l') => (a =? a') && (b =? b') && nlist_eqb l l'
+  | None, None => true
+  | _, _ => false
+  end.
+Lemma fse_eqb_sound x y : fse_eqb x y = true -> x = y.
+Proof.
+  destruct x as [[[a b] l]|], y as [[[a' b'] l']|]; cbn [fse_eqb]; try discriminate; auto.
+  intros H. apply andb_true_iff in H as [H H3]. apply andb_true_iff in H as [H1 H2].
+  apply N.eqb_eq in H1, H2. apply nlist_eqb_sound in H3. congruence.
+Qed.
+
+Section Uniformb.
+Variable T : tables.
+Variable vs : list N.
+Variable v0 : N.
+
+Definition tyunib (NM : list N) (ty : N * N) : bool :=
+  forallb (fun v => res_eqb Bool.eqb (splittable_in T ty v) (splittable_in T ty v0) &&
+                    forallb (fun name => res_eqb fse_eqb (find_sub_element T ty name v) (find_sub_element T ty name v0)) NM) vs.
+Lemma tyunib_sound NM ty : tyunib NM ty = true -> TyUni T vs v0 NM ty.
+Proof.
+  unfold tyunib. rewrite forallb_forall. intros H. split.
+  - intros v Hv. specialize (H v Hv). apply andb_true_iff in H as [H _].
+    apply (res_eqb_sound Bool.eqb); [intros a b E; apply Bool.eqb_prop; exact E|exact H].
+  - intros v name Hv Hn. specialize (H v Hv). apply andb_true_iff in H as [_ H]. rewrite forallb_forall in H.
+    apply (res_eqb_sound fse_eqb); [apply fse_eqb_sound|apply H; exact Hn].
+Qed.
+
+Fixpoint mnames (t : mtree) {struct t} : list N :=
+  match t with
+  | MNode name _ _ content _ _ =>
+    name :: (fix go (l : list (mtree + Parser.cdata)) : list N :=
+               match l with [] => [] | inl c :: r => mnames c ++ go r | inr _ :: r => go r end) content
+  end.
+
+Fixpoint mub (NM : list N) (t : mtree) {struct t} : bool :=
+  match t with
+  | MNode name ty _ content _ _ =>
+    tyunib NM ty && existsb (N.eqb name) NM &&
+    (fix all (l : list (mtree + Parser.cdata)) : bool :=
+       match l with [] => true | inl c :: r => mub NM c && all r | inr _ :: r => all r end) content
+  end.
+
+Lemma mub_sound NM : forall n t, (depth t <= n)%nat -> mub NM t = true -> MU T vs v0 NM t.
+Proof.
+  induction n as [|n IH]; intros [name ty attrs content comment files] Hd H; rewrite depth_unfold in Hd; [lia|].
+  cbn [mub] in H. apply andb_true_iff in H as [H H3]. apply andb_true_iff in H as [H1 H2].
+  apply MU_unfold. split; [apply tyunib_sound; exact H1|]. split.
+  - apply existsb_exists in H2 as (x & Hx & E). apply N.eqb_eq in E. subst x. exact Hx.
+  - assert (Hdk : forall c, In c (kids content) -> (depth c <= n)%nat).
+    { intros c Hc. apply kids_in in Hc. apply depth_items_in in Hc. lia. }
+    clear Hd. revert H3 Hdk. induction content as [|[c|d] r IHr]; cbn [kids flat_map app]; intros H3 Hdk c0 Hc0; [destruct Hc0| |].
+    + apply andb_true_iff in H3 as [Hc Hr]. destruct Hc0 as [<-|Hc0]; [apply IH; [apply Hdk; left; reflexivity|exact Hc]|].
+      apply IHr; auto. intros c1 H1'. apply Hdk. right. exact H1'.
+    + apply IHr; auto.
+Qed.
+
+(* every element of the master has the same type and split behaviour in all versions of vs *)
+Definition uniformb (M : mtree) : bool := mub (mnames M) M.
+Lemma uniformb_sound M : uniformb M = true -> MU T vs v0 (mnames M) M.
+Proof. apply (mub_sound (mnames M) (depth M) M (le_n _)). Qed.
+
+End Uniformb.
